@@ -86,7 +86,12 @@ def check(repo, tier):
                     bad.append(f'{c["callee"].name} is called with threshold {argd.get("threshold", "default")} instead of the caller\'s {thr}')
                 if argd.get('ortho_r', True) is False:
                     psi = c['args'][0]
-                    tail = psi._attrs['cores'][index:] if hasattr(psi, '_attrs') and isinstance(index, int) else []
+                    tail = list(psi._attrs['cores'][index:]) if hasattr(psi, '_attrs') and isinstance(index, int) else []
+                    # (the cores as they were when the call was made: with overwrite=True the call itself replaces them)
+                    for off_, _c in enumerate(tail):
+                        first = [e_ for e_ in sc.events('core-store') if e_['tt'] is psi and e_['slot'] == index + off_]
+                        if first and isinstance(first[0].get('old'), Arr):
+                            tail[off_] = first[0]['old']
                     for cc in tail:
                         v = cc
                         while isinstance(v, Arr) and v.tags.get('const') not in ('eye', 'eye-reshaped') and v.parents and v.buf is v.parents[0].buf:
